@@ -7,7 +7,7 @@ from gffutils.exceptions import EmptyInputError
 from gv.model import dbutil
 
 ID = "C14"
-RULE = ("every sequence of length <= n over the line kinds {##directive, ###, bare ##, #comment, blank, feature, ##FASTA, >header} "
+RULE = ("every sequence of length <= n over the line kinds {##directive, ###, bare ##, #comment, #!pragma comment, blank, feature, ##FASTA, >header} "
         "(plus sequence text after a FASTA marker) x checklines x input form; each execution drives DataIterator (iterated twice), "
         "create_db(:memory:) and create_db(file)+reopen. Non-trivial = a directive lies after the first checklines+1 features, or "
         "something follows a FASTA marker, or comments/blanks are interleaved with features")
@@ -16,7 +16,7 @@ ASSUMPTIONS = [
     "an input without any feature line makes create_db raise the documented empty-input error; nothing else may raise",
 ]
 
-KINDS = "DTECBFAH"      # E = a bare "##" line (directive with empty text)
+KINDS = "DTECPBFAH"      # E = a bare "##" line (directive with empty text); P = a "#!pragma" comment
 
 
 def render(seq):
@@ -31,6 +31,8 @@ def render(seq):
             lines.append("##")
         elif k == "C":
             lines.append("#comment %d" % len(lines))
+        elif k == "P":
+            lines.append("#!genome-build GRCh%d" % len(lines))
         elif k == "B":
             lines.append("")
         elif k == "F":
@@ -64,16 +66,16 @@ def maxn(tier):
 
 
 def bounds(tier):
-    return dict(line_kinds=list(KINDS), max_len=maxn(tier), checklines=[0, 1, 10], forms=["path", "from_string"],
+    return dict(line_kinds=list(KINDS), max_len=maxn(tier), checklines=[0, 1, 10], forms=["path", "from_string", "gzip path with CRLF line ends (length <= 3)"],
                 extra_len6="full alphabet, path form, checklines 0 and 1" if tier != "quick" else None)
 
 
 def shards(tier):
     out = []
-    for form in ("path", "string"):
-        for cl in (0, 1, 10):
+    for form in ("path", "string", "gz_crlf"):
+        for cl in ((0, 1, 10) if form != "gz_crlf" else (1,)):
             out.append(("full", form, cl, 0, ""))
-            for n in range(1, maxn(tier) + 1):
+            for n in range(1, (maxn(tier) if form != "gz_crlf" else 3) + 1):
                 for a in KINDS:
                     if n >= 3:
                         out.extend(("full", form, cl, n, a + b) for b in KINDS)
@@ -97,6 +99,11 @@ def body(ch, ctx):
     wd = ctx.fresh_dir()
     if form == "path":
         data, kw = dbutil.write_text(wd, "in.gff", text), {}
+    elif form == "gz_crlf":
+        import gzip
+        data, kw = os.path.join(wd, "in.gff.gz"), {}
+        with gzip.open(data, "wb") as fh:
+            fh.write(text.replace("\n", "\r\n").encode("utf-8"))     # DOS line ends, read in binary mode
     else:
         data, kw = text, dict(from_string=True)
     # facts about the input, computed independently of the implementation
